@@ -16,11 +16,12 @@ IsEv(e) == l <= Len(Log) /\ E.ev = e /\ l' = l + 1
 
 TInit == TLCSet(1, 1) /\ Init /\ l = 1 /\ termPend = {} /\ gcSeen = {} /\ lkSeen = {}
 TReset == /\ IsEv("reset")
-          /\ slots' = <<>> /\ term' = {} /\ nproc' = 0 /\ nops' = 0 /\ assigned' = <<>>
+          /\ slots' = <<>> /\ term' = {} /\ nproc' = 0 /\ nops' = 0 /\ assigned' = <<>> /\ text' = <<>>
           /\ ret' = A("Init", [k |-> "none", list |-> <<>>])
           /\ termPend' = {} /\ gcSeen' = {} /\ lkSeen' = {}
 \* processes are numbered in the order in which the table added them
-TAdd == IsEv("jobs.add") /\ Add /\ ret'.p = E.p /\ ret'.job = E.a /\ UNCHANGED <<termPend, gcSeen, lkSeen>>
+\* ... and the driver logs the command line it gave the process
+TAdd == IsEv("jobs.add") /\ Add(E.s) /\ ret'.p = E.p /\ ret'.job = E.a /\ UNCHANGED <<termPend, gcSeen, lkSeen>>
 TCallTerm == IsEv("call.term") /\ UNCHANGED <<vars, gcSeen, lkSeen>> /\ termPend' = termPend \cup {E.p}
 TTermSilent == /\ l <= Len(Log) /\ \E p \in termPend : (Terminate(p) /\ termPend' = termPend \ {p})
                /\ UNCHANGED <<l, gcSeen, lkSeen>>
@@ -40,7 +41,7 @@ TGc == /\ IsEv("jobs.gc")
        /\ slots' = E.slots
        /\ nops' = nops + 1
        /\ ret' = A("GC", [k |-> "none", list |-> <<>>])
-       /\ UNCHANGED <<term, nproc, assigned, termPend, gcSeen, lkSeen>>
+       /\ UNCHANGED <<term, nproc, assigned, text, termPend, gcSeen, lkSeen>>
 \* a lookup holds the table's lock but reads the "terminated" flags as it goes: what it returns was
 \* running when the lookup began (a job may end while the lookup is in progress)
 TLookupStart == IsEv("jobs.lookup.start") /\ UNCHANGED <<vars, termPend, gcSeen>> /\ lkSeen' = term
@@ -51,7 +52,16 @@ TLatest == /\ IsEv("jobs.latest")
            /\ E.a \in DOMAIN slots /\ slots[E.a] = E.p /\ E.p # Nil /\ E.p \notin lkSeen
            /\ \A i \in DOMAIN slots : i > E.a => (slots[i] = Nil \/ slots[i] \in term)
            /\ UNCHANGED <<vars, termPend, gcSeen, lkSeen>>
-TNext == TReset \/ TLookupStart \/ TGcStart \/ TAdd \/ TCallTerm \/ TTermSilent \/ TRetTerm \/ TGc \/ TGet \/ TLatest
+\* search by command line: the job returned was running when the lookup began, its command line contains the
+\* search string, and every newer job has ended or does not match
+TByText == /\ IsEv("jobs.bytext")
+           /\ E.a \in DOMAIN slots /\ slots[E.a] = E.p /\ E.p # Nil /\ E.p \notin lkSeen
+           /\ Contains(text[E.p], E.s)
+           \* (IF, not a disjunction: in an action TLC explores every disjunct, also text[Nil])
+           /\ \A i \in DOMAIN slots : IF i > E.a /\ slots[i] # Nil /\ slots[i] \notin term
+                                         THEN ~Contains(text[slots[i]], E.s) ELSE TRUE
+           /\ UNCHANGED <<vars, termPend, gcSeen, lkSeen>>
+TNext == TByText \/ TReset \/ TLookupStart \/ TGcStart \/ TAdd \/ TCallTerm \/ TTermSilent \/ TRetTerm \/ TGc \/ TGet \/ TLatest
 TSpec == TInit /\ [][TNext]_tvars
 
 HWM == TLCSet(1, IF TLCGet(1) < l THEN l ELSE TLCGet(1))
